@@ -126,17 +126,17 @@ pub fn realnum_strcmp_with_sign(a: &str, a_neg: bool, b: &str, b_neg: bool) -> O
         _ => {}
     }
 
-    // Find decimal point positions
-    let a_dot = a.find('.').unwrap_or(a.len());
-    let b_dot = b.find('.').unwrap_or(b.len());
+    // Split at the decimal point; leading zeros of the integer part carry no value
+    let (a_int, a_frac) = split_realnum(a);
+    let (b_int, b_frac) = split_realnum(b);
 
-    let cmp = if a_dot == b_dot {
-        // Same integer part length - lexicographic comparison works
-        a.cmp(b)
-    } else {
-        // Different integer part lengths - longer integer part is larger
-        a_dot.cmp(&b_dot)
-    };
+    // Longer (stripped) integer part is larger; equal lengths compare digit-wise;
+    // fractions compare digit-wise from the decimal point (a prefix is smaller)
+    let cmp = a_int
+        .len()
+        .cmp(&b_int.len())
+        .then_with(|| a_int.cmp(b_int))
+        .then_with(|| a_frac.cmp(b_frac));
 
     // For negative numbers, reverse the comparison
     if a_neg {
@@ -177,6 +177,15 @@ fn parse_sign(s: &str) -> Option<(&str, bool)> {
 // Helper: true if the unsigned number string denotes zero ("0", "000", "0.00")
 fn is_zero_magnitude(s: &str) -> bool {
     s.bytes().all(|c| c == b'0' || c == b'.')
+}
+
+// Helper: (integer part without leading zeros, fraction digits)
+fn split_realnum(s: &str) -> (&str, &str) {
+    let (int_part, frac_part) = match s.find('.') {
+        Some(pos) => (&s[..pos], &s[pos + 1..]),
+        None => (s, ""),
+    };
+    (int_part.trim_start_matches('0'), frac_part)
 }
 
 // Helper: validate real number string (digits and at most one dot)
